@@ -145,6 +145,16 @@ def context_for(prop, history):
             raise RuntimeError(f"resolver failed: {error!r}")
     if prop == "C08":
         return {"worker_table": worker_table(suite_path_of(scenario))}
+    if prop == "C15":
+        sp = suite_path_of(scenario)
+        vms_params = scenario.get("vms_params", {})
+        exp = {}
+        for vm in sorted(scenario["vm_strs"]):
+            f = vms_params.get(f"from_state_{vm}", vms_params.get("from_state", "install"))
+            t = vms_params.get(f"to_state_{vm}", vms_params.get("to_state", "customize"))
+            rs = vms_params.get(f"remove_set_{vm}", vms_params.get("remove_set", "leaves"))
+            exp[vm] = update_expectation(sp, vm, scenario["vm_strs"][vm], f, t, rs)
+        return {"expectations": exp}
     return {}
 
 
@@ -294,3 +304,136 @@ def check_dependencies(graph, suite_path, phase):
                 out.append(V("C07", "unattributed-dependency", f"{label(n)} depends on {label(p)} through no object of its own",
                              phase=phase))
     return dedup(out)
+
+
+# --------------------------------------------------------------------------------------------
+# C15: what an update of a vm from one state to another has to run and to remove
+# --------------------------------------------------------------------------------------------
+
+def update_expectation(suite_path, vm, vm_restr, from_state, to_state, remove_set="leaves"):
+    """(tests on the path from from_state to to_state inclusive, states of ``vm`` derived from to_state)."""
+    variants = apply_restriction(vm_restr, vm_variants(suite_path).get(vm, []))
+    if len(variants) != 1:
+        return None
+    token = variant_token(variants[0])
+    res = Resolver(suite_path)
+
+    def test_named(state):
+        if state == "install":
+            # the installation is whatever creates the object: the "original" tests
+            ds = compose(suite_path, vm, token, "all..original")
+        else:
+            ds = compose(suite_path, vm, token, "all.." + state)
+        if state == "install":
+            # the installation variant in use is the one the customization depends on
+            cust = res.test_dict("internal.automated.customize", vm, token)
+            want = typed(cust, "get", "images", vm) if cust else None
+            ds = [d for d in ds if want and re.search(r"(\.|^)" + re.escape(want) + r"(\.|$)", d["name"])] or ds
+        return [strip_set(flat_part(d["name"])) for d in ds]
+
+    def parents(test):
+        out = []
+        for typ in ("images", "vms"):
+            for name, state in res.producers(test, vm, token, typ):
+                out.append(name)
+        return out
+
+    targets = test_named(to_state)
+    sources = test_named(from_state)
+    if len(targets) != 1 or len(sources) != 1:
+        return {"invalid": True}
+    target, source = targets[0], sources[0]
+    # the path: walk up from the target until the source
+    path, cur, guard = [target], target, 0
+    while cur != source and guard < 20:
+        ups = parents(cur)
+        if not ups:
+            return {"invalid": True}
+        cur = ups[0]
+        path.append(cur)
+        guard += 1
+    if cur != source:
+        return {"invalid": True}
+    # descendants of the target among the remove set, following the dependencies of this vm only
+    universe = [strip_set(t["name"]) for t in selected_tests(suite_path, remove_set if ".." in remove_set or remove_set in
+                                                              ("leaves", "normal", "minimal", "all", "nonleaves") else "all.." + remove_set)]
+    derived = {}
+
+    def ancestors(test, seen):
+        """All (expanded) producer names above a test, for this vm."""
+        out = set()
+        for up in parents(test):
+            if up in seen:
+                continue
+            seen.add(up)
+            out.add(up)
+            base = up
+            while res.test_dict(base, vm, token) is None and "." in base:
+                base = base.rsplit(".", 1)[0]
+            out |= ancestors(base, seen) if base == up else ancestors_of_clone(up, base, seen)
+        return out
+
+    def ancestors_of_clone(clone, base, seen):
+        # a clone descends from exactly the producer its branch names, and from the base test's other setup
+        branch = clone[len(base) + 1:]
+        out = set()
+        for typ in ("images", "vms"):
+            for name, state in res.producers(base, vm, token, typ):
+                if state == branch or branch.endswith(state) or state.endswith(branch):
+                    if name not in seen:
+                        seen.add(name)
+                        out.add(name)
+                        nb = name
+                        while res.test_dict(nb, vm, token) is None and "." in nb:
+                            nb = nb.rsplit(".", 1)[0]
+                        out |= ancestors(nb, seen) if nb == name else ancestors_of_clone(name, nb, seen)
+        return out
+
+    closure = {}
+    for leaf in universe:
+        d = res.test_dict(leaf, vm, token)
+        if d is None:
+            continue
+        # the test's own restrictions on this vm's variant
+        only = [t.strip() for t in d.get(f"only_{vm}", "").split(",") if t.strip()]
+        no = [t.strip() for t in d.get(f"no_{vm}", "").split(",") if t.strip()]
+        if only and not any(token_matches(t, variants[0]) for t in only):
+            continue
+        if no and any(token_matches(t, variants[0]) for t in no):
+            continue
+        for typ in ("images", "vms"):
+            for name, state in res.expand(leaf, vm, token, typ):
+                closure.setdefault(name, {})[typ] = state
+    # add every ancestor with the states it sets
+    todo = list(closure)
+    while todo:
+        test = todo.pop()
+        base = test
+        while res.test_dict(base, vm, token) is None and "." in base:
+            base = base.rsplit(".", 1)[0]
+        ups = ancestors(base, set()) if base == test else ancestors_of_clone(test, base, set())
+        for up in ups:
+            if up not in closure:
+                ub = up
+                while res.test_dict(ub, vm, token) is None and "." in ub:
+                    ub = ub.rsplit(".", 1)[0]
+                closure[up] = {}
+                for typ in ("images", "vms"):
+                    for name, state in res.expand(ub, vm, token, typ):
+                        if name == up:
+                            closure[up][typ] = state
+                todo.append(up)
+    removed = set()
+    for test, states in closure.items():
+        base = test
+        while res.test_dict(base, vm, token) is None and "." in base:
+            base = base.rsplit(".", 1)[0]
+        ups = ancestors(base, set()) if base == test else ancestors_of_clone(test, base, set())
+        if target in ups:
+            for typ, state in states.items():
+                if state:
+                    removed.add((typ, state))
+    if target not in closure:
+        # the target is not part of the graph spanned by the remove set: rejected
+        return {"invalid": True, "reason": "target outside the remove set"}
+    return {"invalid": False, "path": path, "removed": sorted(removed), "token": token}
